@@ -13,6 +13,21 @@ CLAIMED = {
             'Seeded search over fault sequences and histories; every tick checks that each stored preconditioner is bit-identical to the previous one or was replaced on a refresh tick by a root whose reported error is finite and below the threshold, that stored preconditioners stay finite, and that unpoisoned leaves get finite updates. Evidence, not proof.',
             'Trusts the reported inverse_pth_root_errors in training_metrics as the value the gate tested; vmap named axis stands in for pmap replicas; sizes are small (dims<=10, <=4 leaves, <=40 ticks).',
             'DESIGN.md 4 C03'),
+    'C01': ('exploration',
+            'deterministic simulation, in situ: residual oracle (existential in the ridge) on every root the simulated optimizer installs under gradient faults',
+            'Restricted reach: the property quantifies over all PSD matrices, which simulation cannot do. What is decided is that every root accepted by the gate during seeded, faulted histories (Newton/eigh, exponents 1-8, ridge 0..1e-1 relative/absolute, padded sharded stacks, x64 on/off, 1x1..10x10 statistics incl. singular/rank-deficient/overflow-scaled ones) is finite, symmetric, zero on padding, satisfies ||X^p(S+dI)-I||_max <= reported error + 20 n p kappa u for some admissible ridge d, and that the reported eigenvalue estimate does not exceed lambda_max.',
+            'Only matrices reachable from simulated gradient histories; LOBPCG deflation and direct float64 calls are not decided; vacuous evaluations (singular, kappa>1e8, slack>0.05) are counted separately in the evidence.',
+            'DESIGN.md 5 C01'),
+    'C02': ('exploration',
+            'deterministic simulation: one-step refinement of the real update against an independent float64 reference model over seeded configs, trees and (faulted) histories',
+            'Seeded search over option combinations, trees of rank 0-4 and histories; at every tick a float64 numpy model written from the documentation, fed the implementation\'s own previous state and its stored roots, predicts update, statistics, both momenta and the graft accumulator to float32 rounding tolerance (forward-error bound of the root application included). Replicated, simulated-replica, quantized and sharded (roots from the previous refresh) modes.',
+            'The roots themselves are trusted here and checked by C01/C03/C04; leaves into which the plan injected non-finite or out-of-range values are muted (counted).',
+            'DESIGN.md 4 C02, appendix A'),
+    'C05': ('exploration',
+            'deterministic simulation: closed-form grafting norms and model-computed directions per tick, across every preconditioner representation',
+            'With momentum and weight decay off, per tick and leaf: from the start step on the update has the closed-form graft step norm and the direction of the preconditioned gradient computed by the reference from the roots in the state (dense, int16-dequantized, low-rank packed, FD-packed, sharded, Tearfree blocks, Tearfree sketch); before the start step and for excluded leaves it is the graft step itself. Graft accumulators are also tracked free-running from the gradient history.',
+            'Adafactor grafting is not exercised; direction checks are vacuous when the preconditioned gradient is numerically zero.',
+            'DESIGN.md 4 C05'),
     'C04': ('exploration',
             'deterministic simulation: virtual clock (count leaf) ticked, jumped and rolled back; explicit schedule automaton vs bitwise state diffs per tick',
             'Seeded search over (s, p or lr-scheduled p_t, S) schedules and op histories (STEP, CLOCK_JUMP up to 2^20, stale-checkpoint CRASH_RESTORE, REJIT) for Distributed Shampoo (jit, simulated replicas, quantized, sharded) and Tearfree Shampoo/Sketchy. Per tick: every counter +1, statistics/preconditioner/diagnostic leaves byte-identical off schedule, refreshed statistics equal the one-step float64 reference, accepted roots satisfy the root oracle against the statistics stored at that tick, and the update comes from the branch (graft momentum vs preconditioned) the clock selects.',
